@@ -140,6 +140,19 @@ impl AccountTrees {
         } else {
             HashMap::new()
         };
+        let defined_accounts = if strict_mode {
+            defined_accounts
+        } else {
+            // Not strict mode: the Chart of Accounts is open, so the missing parents
+            // of the listed accounts are real accounts (as they are for accounts which
+            // are created by get_or_create_txn_account). Without them, a posting
+            // to a sub-account of a listed account leaves a gap which reports can't fill.
+            let mut accs = defined_accounts.clone();
+            for atn in defined_accounts.values() {
+                Self::build_account_tree(&mut accs, atn.clone(), None)?;
+            }
+            accs
+        };
         Ok(AccountTrees {
             defined_accounts,
             synthetic_parents,
